@@ -150,6 +150,12 @@ def check_case(case, stats=None):
         time.sleep(0.25)
         kids = set(children()) - before
         if kids:
+            for k in kids:
+                # reported, then removed: a leaked helper that spins would otherwise load the machine for ever
+                try:
+                    os.kill(int(k), 9)
+                except (OSError, ValueError):
+                    pass
             raise Violation("C10:helper-process-left-running", {"children": sorted(kids)})
     bad = check_result(res, src)
     if bad:
